@@ -6301,11 +6301,12 @@ func (l *Lowerer) splatScalarToMatchPointer(pointer, value ir.ExpressionHandle) 
 	if l.currentFunc == nil {
 		return value
 	}
-	// Check if value is a scalar (not already a vector)
+	// Only a scalar is splatted: a vector already matches, and a matrix
+	// (v *= m, vector times matrix) is an operand of its own.
 	if int(value) < len(l.currentFunc.ExpressionTypes) {
 		valInner := ir.TypeResInner(l.module, l.currentFunc.ExpressionTypes[value])
-		if _, isVec := valInner.(ir.VectorType); isVec {
-			return value // already vector
+		if _, isScalar := valInner.(ir.ScalarType); !isScalar && valInner != nil {
+			return value
 		}
 	}
 	// Check if pointer points to a vector type
